@@ -120,6 +120,9 @@ class Gen:
     def supplied(self, sizes):
         """a value supplied in the description for a digest that the tool recalculates: plain hex, or one of the extended forms"""
         form = self.r.choice(["hex", "hex", "hex", "raw", "file", "file_direct"])
+        if self.p(0.012):
+            self.features.add("supplied-digest:null")
+            return None              # `suit-digest-bytes:` left without a value (a placeholder): refused, or else replaced like any other value
         if form == "hex":
             return self.hexs(self.r.choice(sizes))
         self.features.add("supplied-digest:" + form)
@@ -356,7 +359,7 @@ class Gen:
                 m[k] = self.cmdseq(depth)
         for k in SEVERABLE:
             mode = severed.get(k)
-            if mode == "inline":
+            if mode in ("inline", "both"):
                 m[k] = self.cmdseq(depth)
             elif mode in ("severed", "digest-only"):
                 d = {"suit-digest-algorithm-id": self.alg()}
@@ -386,7 +389,7 @@ class Gen:
             x = self.r.random()
             if x < 0.55:
                 continue
-            severed[k] = self.r.choice(["inline", "severed", "severed", "digest-only"]) if k != "suit-text" else \
+            severed[k] = self.r.choice(["inline", "severed", "severed", "digest-only", "both"]) if k != "suit-text" else \
                 self.r.choice(["severed", "severed", "digest-only", "inline" if self.p(0.15) else "severed"])
         for k, v in severed.items():
             self.features.add(f"{k}:{v}")
@@ -403,7 +406,9 @@ class Gen:
             self.features.add("delegation(F7a)")
             members.append(("suit-delegation", [[self.auth_block() for _ in range(self.r.randrange(0, 3))] for _ in range(self.r.randrange(0, 3))]))
         for k in SEVERABLE:
-            if severed.get(k) == "severed":
+            if severed.get(k) in ("severed", "both"):
+                # "both": the sequence stands in the manifest itself *and* a member of that name is left in the envelope (not referenced by digest:
+                # it concerns no digest, and must not disturb the digests of the members that are)
                 members.append((k, self.cmdseq(depth)))
         if severed.get("suit-text") == "severed":
             members.append(("suit-text", self.text_map(comps)))
